@@ -78,7 +78,7 @@ func c16Failing(r *ev.Rand, st *c16State, seq int) hx.Op {
 		return existing[r.Intn(len(existing))]
 	}
 	for {
-		switch r.Intn(34) {
+		switch r.Intn(35) {
 		case 0:
 			return hx.Op{K: "create_ds", Path: "", DT: "i32", Dims: []uint64{2}, Tag: "ds-empty-name"}
 		case 1:
@@ -187,6 +187,13 @@ func c16Failing(r *ev.Rand, st *c16State, seq int) hx.Op {
 			return hx.Op{K: "extlink", Path: anyExisting(), File: "o.h5", Target: "/x", Tag: "extlink-existing-name"}
 		case 28:
 			return hx.Op{K: "densegroup", Path: fresh, Links: map[string]string{"l": "/no/such/target"}, Tag: "densegroup-missing-target"}
+		case 33, 34:
+			// a shape whose byte size overflows 64 bits (chunked creation allocates nothing, so
+			// it may be accepted; if it is refused, it has to be refused without a trace)
+			if r.Bool() {
+				return hx.Op{K: "create_ds", Path: fresh, DT: "f64", Dims: []uint64{1 << 61}, Chunk: []uint64{1 << 20}, Tag: "ds-size-overflow-chunked"}
+			}
+			return hx.Op{K: "create_ds", Path: fresh, DT: "f64", Dims: []uint64{1 << 61}, Tag: "ds-size-overflow-contiguous"}
 		case 29, 30, 31, 32:
 			// attribute writes that fail after validation of the name: a value larger than any
 			// attribute storage takes (object header and 64 KiB heap objects), an unsupported or
